@@ -38,6 +38,7 @@ func TestCheck(t *testing.T) {
 	defer run.Finish()
 	run.Rule("every base operation (all selection trees of the schema below depth/width/size bounds, argument menus) x every decoration " +
 		"(alias, self-alias, in-set duplicate, contiguous run wrapped in inline/named/nested fragments without / with the same / with the interface type condition, " +
+		"a fragment on the interface / union with one nested type-conditioned fragment per implementer under a concrete parent type (inline / named, both orders), " +
 		"__typename, @skip/@include literal/variable/defaulted variable with both values, argument value menus incl. null, list coercion, nested input objects, " +
 		"written as literal / variable / variable named like a generated one / defaulted variable / defaulted variable overridden by a value or by null / literal mixing variables, " +
 		"omitted optional argument, unused variable, variable renaming, operation name) at every applicable site, all combinations of <=1 (quick) / <=2 (thorough, smaller bases) decorations; " +
